@@ -331,7 +331,8 @@ theorem sts_stored_policy_applied (cfg : Cfg) (policy : Str) (s : St) (port dur 
   exact sts_applied _ server policy port dur (by simp only; rw [hh]; exact dictGet_dictSet_same _ _ _) hparse hexp
 
 /-- the connected server keeps the configured spelling of the host name -/
-theorem connectTo_host (cfg : Cfg) (srv : Server) (s : St) : (connectTo cfg srv s).drv.current.host = srv.host := rfl
+theorem connectTo_host (cfg : Cfg) (srv : Server) (s : St) : (connectTo cfg srv s).drv.current.host = srv.host := by
+  unfold connectTo; simp only; split <;> rfl
 
 /-- a real-driver history ending in CONNECTED with required SASL: non-vacuity of `sasl_required_safe_real` -/
 def exRealReq : Cfg := { exReq with realDriver := true, servers := [⟨"h".toList, 6667, none, false⟩] }
@@ -347,12 +348,13 @@ example : (applyStsPolicy exStored ⟨"h".toList, 6667, none, false⟩).map (·.
 /-- `SocketDriver(irc)` of a newly started process (`restart` in the harness: new Irc object, new driver, server
 list not loaded yet) whose first configured server has a stored, parsable, unexpired policy: the first
 connection of the new process goes to the policy's port with forced verification, over TLS — whatever else the
-data base holds. -/
+data base holds (provided the connection can be established at all). -/
 theorem restart_pins_policy (cfg : Cfg) (base : St) (srv : Server) (rest : List Server) (policy : Str) (port dur : Int)
     (hs : cfg.servers = srv :: rest) (hb : base.drv.servers = [])
     (hpol : dictGet base.db.policies srv.host = some policy)
     (hparse : parseStsPolicy policy true = some ⟨port, some dur⟩)
-    (hexp : stsExpired (dictGet base.db.lastDisc srv.host) dur base.now = false) :
+    (hexp : stsExpired (dictGet base.db.lastDisc srv.host) dur base.now = false)
+    (hf0 : base.drv.failNext = 0) (htf : cfg.tlsFails = false) :
     let s := drvStart cfg (initSt cfg base)
     s.drv.connected = true ∧ s.drv.current.host = srv.host ∧ s.drv.current.port = port ∧ s.drv.current.forced = true ∧
     (tlsChoice cfg s.drv.current).1 = true := by
@@ -366,6 +368,19 @@ theorem restart_pins_policy (cfg : Cfg) (base : St) (srv : Server) (rest : List 
     srv policy port dur (by simpa [h1] using hpol) hparse (by simpa [h1, h3] using hexp)
   simp only [h2] at happ ⊢
   rw [happ]
-  simp [connectTo, event, tlsChoice]
+  simp [connectTo, connectFails, event, tlsChoice, hf0, htf]
+
+/-- A connection attempt that fails (refused, or TLS cannot be set up — e.g. `ssl.authorityCertificate` names a
+directory) leaves the driver unconnected with a reconnect scheduled; the server it tried keeps its
+`force_tls_verification`, nothing is retried at once with another `Server` value.  The real-driver histories
+`DReach` (`C08.sts_no_downgrade_real`, `sasl_required_safe_real`, …) include such failures at any point. -/
+theorem connect_failure_schedules (cfg : Cfg) (srv : Server) (s : St)
+    (h : connectFails cfg { srv with attempt := some (srv.attempt.getD s.drv.attempt) } s = true) :
+    (connectTo cfg srv s).drv.connected = false ∧ (connectTo cfg srv s).drv.scheduled = true ∧
+    (connectTo cfg srv s).drv.current.forced = srv.forced ∧ (connectTo cfg srv s).drv.current.host = srv.host ∧
+    (connectTo cfg srv s).db = s.db ∧ (connectTo cfg srv s).fastq = s.fastq := by
+  unfold connectTo
+  simp only [h, if_true]
+  exact ⟨rfl, rfl, rfl, rfl, rfl, rfl⟩
 
 end C09
